@@ -98,7 +98,12 @@
        Safety3.s_from_iter_safe in Props/C04.v; Owned.from_iter_acct in Props/C02.v).
      - that Rust's FromIterator, From<[_; N]> and Extend impls are this loop, and that the
        array source cannot panic, is the correspondence check's business (ops OFromIter with
-       arr = true/false, SFromIter, SExtend).                                              *)
+       arr = true/false, SFromIter, SExtend).
+     - `Extend<&T> for Set` (src/set/extend.rs) is not modelled: it is a one-line delegation
+       `self.extend(iter.into_iter().copied())` to the Extend<T> modelled here (s_extend); that
+       it behaves as Extend<T> on the copied items (repeats charged no capacity, same overflow
+       point) is checked at run time by the shape oracle EXTEND_REF (harness/src/shapes.rs),
+       not by a theorem.                                                                    *)
 (* ========================================================================== *)
 Require Import Model.Base Model.Slots Model.MapOps Model.SetOps Model.Exec.
 Require Import Proofs.Hoare Proofs.Inv Proofs.Safety Proofs.Safety2 Proofs.Spec Proofs.Lawful Proofs.Lawful2 Proofs.Lawful3.
@@ -774,3 +779,206 @@ Example C16_example_set_overflow_midway :
   | _ => False
   end.
 Proof. vm_compute. reflexivity. Qed.
+
+(* ========================================================================== *)
+(* AUDIT CLOSURE, ROUND 2 (appended).  Proofs/MoreBulk.v, section 4.
+
+   (4) From<[(K,V); N]> / From<[T; N]> CANNOT overflow: they hand exactly N items
+       to a fresh container of capacity N.  C16_l_extend_fits: at most n items
+       never overflow capacity n (they have at most n distinct classes);
+       C16_from_iter_no_overflow / C16_s_from_iter_no_overflow: with
+       length items <= cap the build never panics (panic postcondition False)
+       and gives l_extend of the items; C16_from_iter_no_overflow_returns: the
+       run IS a normal return.  Hypotheses: len (self w) = 0 is "the fresh
+       Map::new()/Set::new()", length items <= cap (self w) is "an array of N
+       items into capacity N" (also any shorter source), nx never panics (an
+       array's iterator does not).
+   (5) The exact event log on BOTH exits, with its pull-count reading, for the
+       other three bulk entry points (C16_extend_loop_exact_log covers Extend
+       for Map): C16_from_iter_exact_log (collect / From for Map),
+       C16_s_extend_loop_exact_log (Set::extend), C16_s_from_iter_exact_log
+       (collect / From for Set).  Reading: ext_evs / s_ext_evs contain exactly
+       one pull (EvCall 1) per item, in list order, each followed only by the
+       Drop events of that item's insertion (C16_pulls_ext_evs,
+       C16_pulls_s_ext_evs); on return one more pull closes the log
+       (S (length items) pulls); on overflow the log is "pre's events, the pull
+       that yielded x, then Drop events only" (S (length pre) pulls, none after
+       the overflow): arg_drops x (the rejected arguments), pair_drops of every
+       never-yielded item of post, and for collect / From the entries of the
+       partial container res.
+   ========================================================================== *)
+
+Theorem C16_l_extend_fits :
+  forall (K V : Type) (ck : K -> N) (n : nat) (items : list (K * V)),
+    length items <= n -> l_extend ck n [] items <> None.
+Proof. exact (@l_extend_fits). Qed.
+Print Assumptions C16_l_extend_fits.
+
+Theorem C16_from_iter_no_overflow :
+  forall (K V Q T : Type) (E : env K V Q T) (debug : bool) (ck : K -> N) (cq : Q -> N),
+    Lawful E ck cq ->
+    forall (nx : T -> ans * T) (items : list (K * V)) (w : world K V T),
+      WF (self w) ->
+      len (self w) = 0 ->
+      length items <= cap (self w) ->
+      (forall s : T, fst (nx s) <> Boom) ->
+      wp (from_iter E debug nx items)
+         (fun (_ : unit) (w' : world K V T) =>
+            WF (self w') /\
+            cap (self w') = cap (self w) /\
+            l_extend ck (cap (self w)) [] items = Some (Spec.elems (self w')) /\
+            log w' = log w ++ ext_evs E ck [] items ++ [EvCall 1])
+         (fun _ : world K V T => False)
+         w.
+Proof. exact (@from_iter_no_overflow). Qed.
+Print Assumptions C16_from_iter_no_overflow.
+
+Theorem C16_from_iter_no_overflow_returns :
+  forall (K V Q T : Type) (E : env K V Q T) (debug : bool) (ck : K -> N) (cq : Q -> N),
+    Lawful E ck cq ->
+    forall (nx : T -> ans * T) (items : list (K * V)) (w : world K V T),
+      WF (self w) ->
+      len (self w) = 0 ->
+      length items <= cap (self w) ->
+      (forall s : T, fst (nx s) <> Boom) ->
+      exists w' : world K V T,
+        from_iter E debug nx items w = Ok tt w' /\
+        WF (self w') /\
+        cap (self w') = cap (self w) /\
+        l_extend ck (cap (self w)) [] items = Some (Spec.elems (self w')).
+Proof. exact (@from_iter_no_overflow_returns). Qed.
+Print Assumptions C16_from_iter_no_overflow_returns.
+
+Theorem C16_s_from_iter_no_overflow :
+  forall (K Q T : Type) (E : env K unit Q T) (debug : bool) (ck : K -> N) (cq : Q -> N),
+    Lawful E ck cq ->
+    forall (nx : T -> ans * T) (items : list K) (w : world K unit T),
+      WF (self w) ->
+      len (self w) = 0 ->
+      length items <= cap (self w) ->
+      (forall s : T, fst (nx s) <> Boom) ->
+      wp (s_from_iter E debug nx items)
+         (fun (_ : unit) (w' : world K unit T) =>
+            WF (self w') /\
+            cap (self w') = cap (self w) /\
+            l_extend ck (cap (self w)) [] (unit_items items) = Some (Spec.elems (self w')) /\
+            log w' = log w ++ s_ext_evs E ck [] items ++ [EvCall 1])
+         (fun _ : world K unit T => False)
+         w.
+Proof. exact (@s_from_iter_no_overflow). Qed.
+Print Assumptions C16_s_from_iter_no_overflow.
+
+(* an array of 3 items with a repeated key (classes 5, 6, 5) into capacity 3:
+   the hypotheses hold, the build returns, 2 entries *)
+Example C16_example_array_fits :
+  WF (self (w_of (new_map 3))) /\ len (self (w_of (new_map 3))) = 0 /\
+  length C16_items <= cap (self (w_of (new_map 3))) /\
+  match from_iter (env_map C16_sc0) false nx_none C16_items (w_of (new_map 3)) with
+  | Ok _ w' => Spec.elems (self w') = [(k_ 1 5, v_ 6 9); (k_ 3 6, v_ 4 8)]
+  | _ => False
+  end.
+Proof. split; [apply WF_new|]. split; [reflexivity|]. split; [vm_compute; lia|]. vm_compute. reflexivity. Qed.
+
+(* -------------------------------------------------------------------------- *)
+(* (5) exact logs of the other bulk entry points *)
+Theorem C16_s_ext_evs_def :
+  forall (K Q T : Type) (E : env K unit Q T) (ck : K -> N) (l : list (K * unit)),
+  s_ext_evs E ck l [] = [] /\
+  forall (k : K) (rest : list K),
+    s_ext_evs E ck l (k :: rest) =
+    [EvCall 1] ++
+    match snd (l_insert ck l k tt false) with
+    | Some (k', _) => ev_drops (idK E k')
+    | None => []
+    end ++
+    s_ext_evs E ck (fst (fst (l_insert ck l k tt false))) rest.
+Proof. intros. split; reflexivity. Qed.
+Print Assumptions C16_s_ext_evs_def.
+
+Theorem C16_pulls_s_ext_evs :
+  forall (K Q T : Type) (E : env K unit Q T) (ck : K -> N) (items : list K) (l : list (K * unit)),
+  length (filter is_pull (s_ext_evs E ck l items)) = length items.
+Proof. exact (@pulls_s_ext_evs). Qed.
+Print Assumptions C16_pulls_s_ext_evs.
+
+Theorem C16_from_iter_exact_log :
+  forall (K V Q T : Type) (E : env K V Q T) (debug : bool) (ck : K -> N) (cq : Q -> N),
+    Lawful E ck cq ->
+    forall (nx : T -> ans * T) (items : list (K * V)) (w : world K V T),
+      (forall s : T, fst (nx s) <> Boom) ->
+      WF (self w) ->
+      len (self w) = 0 ->
+      wp (from_iter E debug nx items)
+         (fun (_ : unit) (w' : world K V T) =>
+            WF (self w') /\
+            cap (self w') = cap (self w) /\
+            l_extend ck (cap (self w)) [] items = Some (Spec.elems (self w')) /\
+            log w' = log w ++ ext_evs E ck [] items ++ [EvCall 1])
+         (fun w' : world K V T =>
+            l_extend ck (cap (self w)) [] items = None /\
+            exists (pre : list (K * V)) (x : K * V) (post res : list (K * V)),
+              items = pre ++ x :: post /\
+              l_extend ck (cap (self w)) [] pre = Some res /\
+              find_idx ck (ck (fst x)) res = None /\
+              length res = cap (self w) /\
+              log w' = log w ++ ext_evs E ck [] pre ++ [EvCall 1] ++
+                                arg_drops E x ++ flat_map (pair_drops E) post ++
+                                flat_map (pair_drops E) res)
+         w.
+Proof. exact (@from_iter_overflow). Qed.
+Print Assumptions C16_from_iter_exact_log.
+
+Theorem C16_s_extend_loop_exact_log :
+  forall (K Q T : Type) (E : env K unit Q T) (debug : bool) (ck : K -> N) (cq : Q -> N),
+    Lawful E ck cq ->
+    forall (nx : T -> ans * T) (items : list K),
+      (forall s : T, fst (nx s) <> Boom) ->
+      forall w : world K unit T,
+      WF (self w) ->
+      wp (s_extend_loop E debug nx items)
+         (fun (_ : unit) (w' : world K unit T) =>
+            WF (self w') /\
+            cap (self w') = cap (self w) /\
+            l_extend ck (cap (self w)) (Spec.elems (self w)) (unit_items items) = Some (Spec.elems (self w')) /\
+            log w' = log w ++ s_ext_evs E ck (Spec.elems (self w)) items ++ [EvCall 1])
+         (fun w' : world K unit T =>
+            WF (self w') /\
+            cap (self w') = cap (self w) /\
+            l_extend ck (cap (self w)) (Spec.elems (self w)) (unit_items items) = None /\
+            exists (pre : list K) (x : K) (post : list K),
+              items = pre ++ x :: post /\
+              l_extend ck (cap (self w)) (Spec.elems (self w)) (unit_items pre) = Some (Spec.elems (self w')) /\
+              find_idx ck (ck x) (Spec.elems (self w')) = None /\
+              length (Spec.elems (self w')) = cap (self w) /\
+              log w' = log w ++ s_ext_evs E ck (Spec.elems (self w)) pre ++ [EvCall 1] ++
+                                arg_drops E (x, tt) ++ flat_map (pair_drops E) (unit_items post))
+         w.
+Proof. exact (@s_extend_loop_overflow). Qed.
+Print Assumptions C16_s_extend_loop_exact_log.
+
+Theorem C16_s_from_iter_exact_log :
+  forall (K Q T : Type) (E : env K unit Q T) (debug : bool) (ck : K -> N) (cq : Q -> N),
+    Lawful E ck cq ->
+    forall (nx : T -> ans * T) (items : list K) (w : world K unit T),
+      (forall s : T, fst (nx s) <> Boom) ->
+      WF (self w) ->
+      len (self w) = 0 ->
+      wp (s_from_iter E debug nx items)
+         (fun (_ : unit) (w' : world K unit T) =>
+            WF (self w') /\
+            cap (self w') = cap (self w) /\
+            l_extend ck (cap (self w)) [] (unit_items items) = Some (Spec.elems (self w')) /\
+            log w' = log w ++ s_ext_evs E ck [] items ++ [EvCall 1])
+         (fun w' : world K unit T =>
+            l_extend ck (cap (self w)) [] (unit_items items) = None /\
+            exists (pre : list K) (x : K) (post : list K) (res : list (K * unit)),
+              items = pre ++ x :: post /\
+              l_extend ck (cap (self w)) [] (unit_items pre) = Some res /\
+              find_idx ck (ck x) res = None /\
+              length res = cap (self w) /\
+              log w' = log w ++ s_ext_evs E ck [] pre ++ [EvCall 1] ++
+                                arg_drops E (x, tt) ++ flat_map (pair_drops E) (unit_items post) ++
+                                flat_map (pair_drops E) res)
+         w.
+Proof. exact (@s_from_iter_overflow). Qed.
+Print Assumptions C16_s_from_iter_exact_log.
